@@ -243,7 +243,9 @@ RefResult ref_solve(const LP& lp, long maxp) {
     LP rec; rec.sense = 1; rec.obj.assign(n, Q(0)); rec.lo.resize(n); rec.up.resize(n);
     for (int j = 0; j < n; j++) { rec.lo[j] = lp.lo[j].finite() ? Ext(Q(0)) : Ext(Q(-1)); rec.up[j] = lp.up[j].finite() ? Ext(Q(0)) : Ext(Q(1)); }
     rec.A = lp.A; rec.lhs.resize(m); rec.rhs.resize(m);
-    for (int i = 0; i < m; i++) { rec.lhs[i] = lp.lhs[i].finite() ? Ext(Q(0)) : Ext::ninf(); rec.rhs[i] = lp.rhs[i].finite() ? Ext(Q(0)) : Ext::pinf(); }
+    // rows are relaxed by delta as well: a direction that leaves a row by 1e-16 per unit step (a coefficient that is the double
+    // image of 1/3, say) bounds the LP only at 1e16, which no floating-point solver can be asked to find
+    for (int i = 0; i < m; i++) { rec.lhs[i] = lp.lhs[i].finite() ? Ext(Q(-delta)) : Ext::ninf(); rec.rhs[i] = lp.rhs[i].finite() ? Ext(Q(delta)) : Ext::pinf(); }
     std::vector<Q> crow(n); for (int j = 0; j < n; j++) crow[j] = lp.obj[j] * lp.sense;
     rec.A.push_back(crow); rec.lhs.push_back(Ext(Q(-delta))); rec.rhs.push_back(Ext::pinf());
     for (int j = 0; j < n && !r.bounded_fragile; j++) for (int sg = -1; sg <= 1 && !r.bounded_fragile; sg += 2) {
